@@ -50,6 +50,7 @@ type State struct {
 	loopSnap map[string][]Term // variant snapshots per loop key
 	nAssume  int
 	guards   map[string]guardInfo
+	sink     *[]Term // specification views: facts produced by heap reads are collected here
 }
 
 func (st *State) clone() *State {
@@ -94,6 +95,10 @@ func (st *State) clone() *State {
 
 func (st *State) assume(t Term) {
 	if t.S == "true" {
+		return
+	}
+	if st.sink != nil {
+		*st.sink = append(*st.sink, t)
 		return
 	}
 	st.nAssume++
@@ -201,12 +206,17 @@ func (st *State) hhavoc(name string) {
 }
 
 // havocAll forgets everything about the heap (used for unmodelled calls).
-func (st *State) havocAll(except func(string) bool) {
-	// the callee may allocate: alloc grows
+// growAlloc: a callee may allocate; what was allocated stays allocated.
+func (st *State) growAlloc() Term {
 	oldAlloc := st.hget("alloc", SArr(SRef, SBool))
 	newAlloc := st.x.enc.Fresh("alloc@h", SArr(SRef, SBool))
-	st.assume(Term{fmt.Sprintf("(forall ((r!a Ref)) (! (=> (select %s r!a) (select %s r!a)) :pattern ((select %s r!a))))", oldAlloc.S, newAlloc.S, newAlloc.S), SBool})
+	st.assume(Term{fmt.Sprintf("(forall ((r!a Ref)) (! (=> (select %s r!a) (select %s r!a)) :pattern ((select %s r!a))))", oldAlloc.S, newAlloc.S, oldAlloc.S), SBool})
 	st.heap["alloc"] = newAlloc
+	return oldAlloc
+}
+
+func (st *State) havocAll(except func(string) bool) {
+	oldAlloc := st.growAlloc()
 	// objects not yet published stay unknown to callees: still unallocated from the heap's point of view is not needed;
 	// they are simply allocated (we set alloc when creating them).
 	for _, name := range sortedKeys(st.x.heapSorts) {
